@@ -35,7 +35,7 @@ CFG = {
         "GetSigned/fastSigned is exact except in the state range=255, which exists only before the first bool of a partition (theorem C04_bool_variants_agree, last two conjuncts).",
     ],
     "partial": [
-        "syntax round trip: proved for the whole first-partition header (C04_syntax_roundtrip, probability updates and skip probability included) and for the coefficient tokens of a block (C04_tokens_roundtrip, C04_decode_block_roundtrip); NOT proved for the per-macroblock header (segment id, skip flag, mode trees with contexts) and for the assembly of blocks into a macroblock / frame, so vp8_emit_decode for whole frames remains unproved. Not attempted: inline_coeffs_eq, row_filter_order_eq, single-macroblock no_drift step.",
+        "syntax round trip: proved for the whole first-partition header (C04_syntax_roundtrip, probability updates and skip probability included) and for the coefficient tokens of a block (C04_tokens_roundtrip, C04_decode_block_roundtrip); also for the per-macroblock header with its mode contexts (C04_mb_header_roundtrip) and the residual data of a macroblock with its non-zero contexts (C04_residuals_roundtrip); NOT proved: the assembly over macroblock rows and token partitions (row_loop / rows_loop with one decoder per partition) and the layout bytes (frame tag, partition size table), so vp8_emit_decode for whole frames remains unproved. Not attempted: inline_coeffs_eq, row_filter_order_eq, single-macroblock no_drift step.",
         "not proved: vp8_emit_decode (emitter/decoder round trip over all syntaxes; the emitter lives in the Go harness, not in Coq), inline_coeffs_eq (getCoeffsInline with hoisted reader state = token-tree decoder) and row_filter_order_eq (row-by-row filtering = filter after full reconstruction): these are covered by differential execution of whole frames only. The ALPH clause (alpha filters, header) is handled under coq/theories/Alpha by the C07 builder.",
         "the specification keeps IDCT/WHT intermediates as exact integers (as libwebp's C code and the pure-Go kernels do) with 16-bit storage of dequantised coefficients and WHT outputs; RFC 6386's reference source narrows first-pass IDCT values to short - the two readings differ only for coefficient sets no encoder of 8-bit pictures produces.",
     ],
